@@ -200,7 +200,7 @@ Definition do_commit (e : env) (c : ctx) (msg : bytes) : M unit :=
   from <- (if am_mem (w_refs w) (w_head w) then
              match x_headc c with
              | Some (hid, _) => emit (ESetRef (w_head w) cid) ;;; ret (Some hid)
-             | None => panic
+             | None => fail
              end
            else guard (valid_branch_name (w_head w)) ;;; emit (ESetRef (w_head w) cid) ;;; ret None) ;;
   let line := log_rec e c from (Some cid) RCommit (first_line msg) in
@@ -214,7 +214,7 @@ Definition cmd_commit (e : env) (c : ctx) (msg : bytes) : M (list bytes) :=
      guard (negb (is_nil (idx_of w))) ;;; do_commit e c msg
    else
      match x_headc c with
-     | None => panic
+     | None => fail
      | Some _ =>
          ns <- head_tree_nodes c ;;
          guard (negb (is_nil (diff_with_tree (idx_of w) ns))) ;;; do_commit e c msg
@@ -354,11 +354,11 @@ Definition cmd_reset (e : env) (c : ctx) (soft mixed hard : bool) (args : list b
     tid <- of_opt (r_id r) ;;
     (* resetHead *)
     match x_headc c with
-    | None => panic
+    | None => fail
     | Some (prev, _) =>
+        tc <- of_opt (get_commit (w_objs w) tid) ;;
         guard (am_mem (w_refs w) (w_head w)) ;;;
         emit (ESetRef (w_head w) tid) ;;;
-        tc <- of_opt (get_commit (w_objs w) tid) ;;
         let line := log_rec e c (Some prev) (Some tid) RReset (str "moving to "%string ++ a) in
         emit (EAppendHlog line) ;;; emit (EAppendBlog (w_head w) line) ;;;
         (if mixed || hard then
@@ -434,7 +434,7 @@ Definition cmd_restore (c : ctx) (staged : bool) (args : list bytes) : M (list b
   w <- getw ;;
   ns <- (if staged then
            guard (am_mem (w_refs w) (w_head w)) ;;;
-           match x_headc c with None => panic | Some _ => head_tree_nodes c end
+           match x_headc c with None => fail | Some _ => head_tree_nodes c end
          else ret []) ;;
   let tgs := map (restore_targets w staged ns) args in
   guard (forallb (fun t => negb (is_nil t)) tgs) ;;;
@@ -487,7 +487,7 @@ Definition cmd_log (c : ctx) (n : Z) : M (list bytes) :=
   w <- getw ;;
   guard (negb (is_nil (w_refs w))) ;;;
   match x_headc c with
-  | None => panic
+  | None => fail
   | Some (hid, _) =>
       ids <- of_opt (walk_history (S (S (2 * length (w_objs w)))) (w_objs w) [hid] [] 0 n) ;;
       ret (map hex ids)
